@@ -502,6 +502,7 @@ func impBuildMux(name string, gc, gs int, chs []jChild) (*acmelib.MultiplexerSig
 	if err != nil {
 		return nil, impCause(err)
 	}
+	var built []acmelib.Signal
 	for _, c := range chs {
 		var sig acmelib.Signal
 		if c.Sub != nil {
@@ -522,6 +523,64 @@ func impBuildMux(name string, gc, gs int, chs []jChild) (*acmelib.MultiplexerSig
 		}
 		if err := mux.InsertSignal(sig, c.R, c.G...); err != nil {
 			return nil, impCause(err)
+		}
+		built = append(built, sig)
+	}
+	// a refused operation leaves nothing behind: a listed leaf is offered, at ANOTHER position, to
+	// two further groups of which the lower one has room there and the higher one has not; the call
+	// must be refused and the tree — the leaf's own position included — stays what the model builds
+	occ := func(g, from, to int, skip int, sure bool) bool { // is [from,to) taken in group g by a child other than skip
+		for k, d := range chs {
+			if k == skip || (sure && d.Sub != nil) {
+				continue
+			}
+			in := len(d.G) == 0
+			for _, x := range d.G {
+				in = in || x == g
+			}
+			if !in {
+				continue
+			}
+			dz := d.Z
+			if d.Sub != nil {
+				dz = gs // a nested multiplexer: treated as reaching the end of the group
+			}
+			if d.R < to && from < d.R+dz {
+				return true
+			}
+		}
+		return false
+	}
+	probes := 0
+	for i, c := range chs {
+		if c.Sub != nil || len(c.G) == 0 || probes >= 2 || gc > 64 {
+			continue
+		}
+		member := map[int]bool{}
+		for _, x := range c.G {
+			member[x] = true
+		}
+	search:
+		for gHigh := gc - 1; gHigh >= 1; gHigh-- {
+			if member[gHigh] {
+				continue
+			}
+			for gLow := 0; gLow < gHigh; gLow++ {
+				if member[gLow] {
+					continue
+				}
+				for _, d := range chs {
+					pos := d.R
+					if pos == c.R || pos < 0 || pos+c.Z > gs || !occ(gHigh, pos, pos+c.Z, i, true) || occ(gLow, pos, pos+c.Z, i, false) {
+						continue
+					}
+					probes++
+					if err := mux.InsertSignal(built[i], pos, gLow, gHigh); err == nil {
+						return nil, "refused-insert-probe-accepted"
+					}
+					break search
+				}
+			}
 		}
 	}
 	return mux, ""
